@@ -105,10 +105,18 @@ func genSession(c *Ctx) sess {
 	nm := 1 + c.R.Intn(2)
 	names := []string{"m", "mm"}
 	var ts []tmpl
-	def := ""
+	def, handExtra := "", ""
 	for i := 0; i < nm; i++ {
 		t := genTemplate(c)
 		ts = append(ts, t)
+		if c.R.Pct(25) { // the same name defined twice in ONE input: the later definition is the one in force
+			t0 := genTemplateN(c, len(t.params))
+			def += names[i] + " = macro(" + strings.Join(t0.params, ", ") + ") {quote(" + t0.text + ")}\n"
+			if c.R.Pct(50) {
+				def += "v0 = 1\n"
+				handExtra += "v0 = 1\n"
+			}
+		}
 		def += names[i] + " = macro(" + strings.Join(t.params, ", ") + ") {quote(" + t.text + ")}\n"
 	}
 	lastArgs := map[int][]string{}
@@ -132,7 +140,7 @@ func genSession(c *Ctx) sess {
 		if k == 0 {
 			prelude := "a=true;b=false;c=true;x=3;y=0;z=[5,6];q={\"r\":1};f=n=>n+1;g=(p,r)=>p\n"
 			a.WriteString(prelude + def)
-			b.WriteString(prelude)
+			b.WriteString(prelude + handExtra)
 		}
 		if k > 0 && c.R.Pct(35) { // redefine one macro (same arity, new template): later calls use the new template
 			i := c.R.Intn(nm)
@@ -410,6 +418,7 @@ func run(c *Ctx) {
 	one(c, sess{[]string{"m = macro(a){quote(unquote(a)+1)}\nmm = macro(m){quote(unquote(m)*2)}\nmm(5)\nm(2)\n"}, []string{"((5)*2)\n((2)+1)\n"}})
 	one(c, sess{[]string{"k = macro(len){quote(unquote(len)+1)}\nk(5)\nlen([1,2])\n"}, []string{"((5)+1)\nlen([1,2])\n"}})
 	one(c, sess{[]string{"m = macro(a){quote(unquote(a)+1)}\nm(3)\n", "m = macro(a){quote(unquote(a)*10)}\nm(3)\n"}, []string{"((3)+1)\n", "((3)*10)\n"}})
+	one(c, sess{[]string{"m = macro(a){quote(unquote(a)+1)}\nm = macro(a){quote(unquote(a)*10)}\nm(2+3)\n", "m(1)\n"}, []string{"((2+3)*10)\n", "((1)*10)\n"}})
 	n := 500
 	if c.Thorough() {
 		n = 20000
